@@ -3,6 +3,7 @@ package fix
 import (
 	"fmt"
 	"math/big"
+	"strings"
 
 	sdkmath "cosmossdk.io/math"
 	sdk "github.com/cosmos/cosmos-sdk/types"
@@ -64,7 +65,13 @@ func NewEvmWorld(seed uint64, chainName string, inflation bool) (*EvmWorld, erro
 	if _, err := c.Next(); err != nil {
 		return nil, err
 	}
-	if e.USDT, err = w.AddModuleToken("USDT", chainName); err != nil {
+	// the module-owned token: in every other world its denomination merely *starts with* the name of a
+	// supported chain (ethfi, bscfi, tronfi): an ordinary coin that must not be taken for a bridge denomination
+	sym := "USDT"
+	if seed%2 == 1 {
+		sym = strings.ToUpper(chainName) + "FI"
+	}
+	if e.USDT, err = w.AddModuleToken(sym, chainName); err != nil {
 		return nil, err
 	}
 	if e.FX, err = w.AddFXToken(chainName); err != nil {
